@@ -6,6 +6,7 @@ import Robsd.Model.StepFile
 import Robsd.Model.StepNext
 import Robsd.Model.Report
 import Robsd.Model.Ls
+import Robsd.Model.Schedule
 /-
   robsd_model: the executable models behind a line protocol.
   One request per line: `<component> <op> <args…>`; byte strings are hex
@@ -97,8 +98,26 @@ def entOf (s : String) : Option Ls.Ent :=
   | n :: k :: [] => some ⟨hexArg n, match k with | "d" => .dir | "f" => .file | "l" => .symlink | _ => .other⟩
   | _ => none
 
+def showLines (o : Option (List Schedule.Line)) : String :=
+  match o with
+  | none => "fail"
+  | some ls => "ok " ++ ",".intercalate (ls.map fun l => s!"{l.1}:{toHex l.2.1}:{if l.2.2 then 1 else 0}")
+
+def schedOf (mode : String) (par : String) (items : String) : Schedule.Cfg :=
+  let its := (listOf items).filterMap fun e => match e.splitOn ":" with
+    | n :: f :: [] => some (hexArg n, f == "1")
+    | _ => none
+  match mode with
+  | "robsd" => .robsd
+  | "robsd-cross" => .cross
+  | "robsd-ports" => .ports
+  | "robsd-regress" => .regress (par == "1") (its.map fun p => ⟨p.1, p.2⟩)
+  | _ => .canvas (its.map fun p => ⟨p.1, p.2⟩)
+
 def handle (ws : List String) : String :=
   match ws with
+  | "sched" :: mode :: par :: offset :: items :: [] =>
+    showLines (Schedule.listFrom (Schedule.steps (schedOf mode par items)) (offset.toNat?.getD 0))
   | "ls" :: root :: keep :: b :: lock :: ents :: [] =>
     let r := Ls.lsCmd (hexArg root) (hexArg keep) (b == "1") (optHex lock) (some ((listOf ents).filterMap entOf))
     s!"{r.1} " ++ ",".intercalate (r.2.map toHex)
